@@ -59,6 +59,16 @@ func (h *QuorumHandler) SyncGenesisHeader(ns *native.NativeService) error {
 		return fmt.Errorf("QuorumHandler SyncGenesisHeader, failed to ExtractIstanbulExtra: %v", err)
 	}
 
+	// the validator set is the trust root of the chain: the genesis header can be synced only once
+	valStore, err := ns.GetCacheDB().Get(utils.ConcatKey(utils.HeaderSyncContractAddress, []byte(common.CONSENSUS_PEER),
+		utils.GetUint64Bytes(params.ChainID)))
+	if err != nil {
+		return fmt.Errorf("QuorumHandler SyncGenesisHeader, get validator set error: %v", err)
+	}
+	if valStore != nil {
+		return fmt.Errorf("QuorumHandler SyncGenesisHeader, genesis header had been initialized")
+	}
+
 	putValSet(ns, params.ChainID, header.Number.Uint64(), extra.Validators)
 	return nil
 }
